@@ -179,20 +179,22 @@ theorem idn_site_policy_never_matches_old_code_fails :
 -- had the sni matcher been given the IDNA form, the client-auth policy would be the one chosen
 example : choose false [⟨[.sni [wIdnATest]], false, true⟩, ⟨[], false, false⟩] ⟨wIdnATest, fun _ => false⟩ = .config 0 := by decide
 
-/-! ### one site block on two ports: both servers get the policy matcher of the last one -/
+/-! ### regression: one site block on two ports — both servers used to get the policy matcher of the last one -/
 
 def wATest : Bytes := [97, 46, 116, 101, 115, 116]    -- "a.test"
 def wBTest : Bytes := [98, 46, 116, 101, 115, 116]    -- "b.test"
 
-/-- `a.test:443, b.test:8443 { tls { client_auth { mode require } } }`: what the adapter gives the
-    server on `:443` — the client-auth policy carries `sni b.test` (the other server's name), then
+/-- `a.test:443, b.test:8443 { tls { client_auth { mode require } } }`: what the adapter USED to give
+    the server on `:443` (the policy object in the block's pile was shared and overwritten; it is
+    copied per server now) — the client-auth policy carries `sni b.test` (the other server's name), then
     the catch-all -/
 def wAliasedPolicies : List Policy := [⟨[.sni [wBTest]], false, true⟩, ⟨[], false, false⟩]
 
 /-- on that server strict SNI-Host is on and a request for `a.test` reaches the site, yet the
     connection got the catch-all policy 1: the site whose block demands client certificates is
-    served without one.  Reproduced through the real adapter (`cf2` cases) and over TCP. -/
-theorem multi_port_block_aliasing_full_fails :
+    served without one.  Reproduced then through the real adapter (`cf2` cases) and over TCP;
+    regression line in corpus/C19. -/
+theorem multi_port_block_aliasing_old_code_fails :
     ∃ (ps : List Policy) (sites : List Bytes) (sni host : Bytes) (v : Nat → Bool) (k : Nat),
       (∃ p ∈ ps, p.clientAuth = true) ∧ noBrackets sni = true ∧ isAscii sni = true ∧
       serve (effectiveStrict none ps) sites (some sni) host = .handler (some k) ∧
@@ -229,8 +231,6 @@ theorem swallowed_ca_load_error :
 def witnessLines : List String := [
   "C19 pol 0 -/~/~;-/612e74657374/~;-/7a7a2e74657374/~;-/7a7a2e74657374/~;-/7a7a2e74657374/~;-/7a7a2e74657374/~;-/7a7a2e74657374/~;-/7a7a2e74657374/~;-/7a7a2e74657374/~;-/7a7a2e74657374/~;-/7a7a2e74657374/~;-/7a7a2e74657374/~;-/7a7a2e74657374/~;-/7a7a2e74657374/~;-/7a7a2e74657374/~;-/7a7a2e74657374/~;-/7a7a2e74657374/~;-/7a7a2e74657374/~;-/7a7a2e74657374/~;-/7a7a2e74657374/~;-/7a7a2e74657374/~;-/7a7a2e74657374/~;-/7a7a2e74657374/~;-/7a7a2e74657374/~;-/7a7a2e74657374/~;-/7a7a2e74657374/~;-/7a7a2e74657374/~;-/7a7a2e74657374/~;-/7a7a2e74657374/~;-/7a7a2e74657374/~;-/7a7a2e74657374/~ 612e74657374/0/6/1000011010111110",
   "C19 enf t . 7365637265742e74657374 1/5b7365637265742e746573745d/5b7365637265742e746573745d",
-  -- one site block on two ports with client_auth require (known finding)
-  "C19 cf2 q",
   -- verifier-only block (Active() flips with provisioning) and a CA file that does not load
   "C19 ca 1000010",
   "C19 ca 1002000"
